@@ -16,6 +16,7 @@ import sys
 import types
 
 RT_NAME = "_sx_rt_"
+HOOKED_ATTRS = {"buffer"}
 NO_WRAP = {"super", "locals", "globals", "vars", "eval", "exec", "__import__", "breakpoint"}
 
 
@@ -38,6 +39,14 @@ class T(ast.NodeTransformer):
         if isinstance(n.func, ast.Attribute) and isinstance(n.func.value, ast.Name) and n.func.value.id == RT_NAME:
             return n
         return ast.Call(self._rt("call"), [n.func] + n.args, n.keywords)
+
+    def visit_Attribute(self, n):
+        self.generic_visit(n)
+        # loads of a few attribute names go through a hook: the state of a real incremental decoder object that
+        # outlives a call (created at import / __init__ time) is kept in a per-path shadow model
+        if isinstance(n.ctx, ast.Load) and n.attr in HOOKED_ATTRS and not (isinstance(n.value, ast.Name) and n.value.id == RT_NAME):
+            return ast.Call(self._rt("attr"), [n.value, ast.Constant(n.attr)], [])
+        return n
 
     def visit_If(self, n):
         self.generic_visit(n)
